@@ -47,6 +47,7 @@ def _(self: Ref['mqtt.client.pubsubs.MQTTProtocol'], response: Ref['mqtt.pdu.SUB
                     and req.deferred.d_val == response.granted and is_int(req.alarm.t_status) and req.alarm.t_status == 1))
     ensures(forall(lambda k: implies(k != id, contains(S(self), k) == old(contains(S(self), k)) and S(self)[k] == old(S(self)[k]))))
     ensures(out(self) == old(out(self)))
+    ensures(implies(not hit, no_new_fired()))
 
 
 @contract('mqtt.client.pubsubs.MQTTProtocol.handleSUBACK', name='foreign-id', callsite=False, props=['C07', 'C16'])
@@ -77,6 +78,7 @@ def _(self: Ref['mqtt.client.pubsubs.MQTTProtocol'], response: Ref['mqtt.pdu.UNS
                     and req.deferred.d_val == id and is_int(req.alarm.t_status) and req.alarm.t_status == 1))
     ensures(forall(lambda k: implies(k != id, contains(U(self), k) == old(contains(U(self), k)) and U(self)[k] == old(U(self)[k]))))
     ensures(out(self) == old(out(self)))
+    ensures(implies(not hit, no_new_fired()))
 
 
 @contract('mqtt.client.pubsubs.MQTTProtocol.handleUNSUBACK', name='foreign-id', callsite=False, props=['C07', 'C16'])
